@@ -1050,6 +1050,31 @@ def q13(rep):
                           "before it otherwise (prints 3)" % (t[5:], sorted("unknown" if v is None else ("true" if v else "false") for v in vals)))
 
 
+def q14(rep, tier):
+    """Constant folding is an optimisation setting (cfold is on from -Q1, float folding from -Q2): a builtin whose folded value
+    differs from what the interpreter, the C runtime or the reference computes makes a program's behaviour depend on the
+    setting.  The comparison itself is C04's (B3/B4 with the folder as one of the copies); its folder-side reports are repeated
+    here under C02."""
+    from . import c04_builtins
+    try:
+        r4 = c04_builtins.run(tier)
+    except AnalysisBroken as e:
+        if not rep.violations:
+            raise
+        rep.note("Q14 not evaluated: %s" % e)
+        return
+    n = 0
+    for rule, inst in sorted(r4.nontrivial):
+        if rule in ("B3", "B4") and (":F-vs-" in inst or inst.endswith(":F") or ":F:" in inst):
+            n += 1
+            rep.ok("Q14", "%s:%s" % (rule, inst), nontrivial=False)
+    for v in r4.violations:
+        if ":F-vs-" in v["key"] or v["key"].endswith(":F") or ":F:" in v["key"]:
+            n += 1
+            rep.violation("Q14", v["key"], v["where"], v["message"], detail=v.get("detail"))
+    rep.floor("folder copies of builtins compared with another evaluator", n, 100)
+
+
 def run(tier, only=None):
     rep = common.Report("C02", tier, EXPLANATION)
     f_foam = common.extract("foam.c", trees=["foamHasSideEffect", "foamIsControlFlow"])
@@ -1067,6 +1092,7 @@ def run(tier, only=None):
     q11(rep)
     q12(rep)
     q13(rep)
+    q14(rep, tier)
     from . import selfcompare
     selfcompare.report(rep, "Q9", [u for u in common.compiler_units() if u.startswith("of_") or u in ("usedef.c", "flog.c", "dflow.c", "optfoam.c", "inlutil.c", "loops.c", "foam.c")], what="(optimizer)")
     from . import variadic
